@@ -56,6 +56,15 @@ func lockPath(v ssa.Value, d int) string {
 		return b + "." + fieldVar(x.X.Type(), x.Field).Name()
 	case *ssa.UnOp:
 		if x.Op == token.MUL {
+			// a load of a single-assignment local that no closure captures (`r := vn.ring`, the cell a
+			// split struct field became) names the object the assigned value names
+			if al, ok := x.X.(*ssa.Alloc); ok {
+				if st := soleStoreUncaptured(al); st != nil {
+					if p := lockPath(st.Val, d+1); p != "" && !strings.HasPrefix(p, "fresh@") && !strings.HasPrefix(p, "call@") && !strings.HasPrefix(p, "phi@") {
+						return p
+					}
+				}
+			}
 			return lockPath(x.X, d+1)
 		}
 	case *ssa.ChangeType:
@@ -84,6 +93,32 @@ func lockPath(v ssa.Value, d int) string {
 		return lockPath(x.X, d+1)
 	}
 	return ""
+}
+
+// soleStoreUncaptured returns the only store to a local whose address is used for nothing but
+// that store and loads (not captured by a closure, not passed on), else nil.
+func soleStoreUncaptured(al *ssa.Alloc) *ssa.Store {
+	if al.Referrers() == nil {
+		return nil
+	}
+	var st *ssa.Store
+	for _, r := range *al.Referrers() {
+		switch x := r.(type) {
+		case *ssa.Store:
+			if x.Addr != ssa.Value(al) || st != nil {
+				return nil
+			}
+			st = x
+		case *ssa.UnOp:
+			if x.Op != token.MUL {
+				return nil
+			}
+		case *ssa.DebugRef:
+		default:
+			return nil
+		}
+	}
+	return st
 }
 
 // isFreshBase reports whether the root of an access path is an object
